@@ -594,7 +594,7 @@ func (f *Frame) resolveLocal(name string, at *ssa.BasicBlock, atIdx int, phiSubs
 		n := 0
 		for _, b := range f.fn.Blocks {
 			for _, ins := range b.Instrs {
-				if a, ok := ins.(*ssa.Alloc); ok && a.Heap && a.Comment == name && (b == at || b.Dominates(at)) {
+				if a, ok := ins.(*ssa.Alloc); ok && a.Comment == name && (b == at || b.Dominates(at)) {
 					if _, have := f.vals[a]; have {
 						cell = a
 						n++
